@@ -24,6 +24,37 @@ PARAM_RE = re.compile(r"""^\((\w+)((?:\.\w+|\['(?:[^']|\\')+'\]|\["(?:[^"]|\\")+
 SEG_RE = re.compile(r"""\.(\w+)|\['((?:[^']|\\')+)'\]|\["((?:[^"]|\\")+)"\]|\[([0-9]+)\]""")
 TOK = re.compile(r"""\s*(?:(\d+)(?![\w.])|([A-Za-z_$][\w$]*)|'([^'\\\n]*)'|"([^"\\\n]*)"|([.\[\]()+?:=,;{}]))""")
 KEYWORDS = {"var", "function", "return", "if", "else", "true", "false"}
+JS_RESERVED = set("break do instanceof typeof case new catch finally void continue for switch while debugger this with "
+                  "default throw delete in try class enum extends super const export import implements let private "
+                  "public interface package protected static yield null undefined".split())
+OPS = ["===", "!==", "==", "!=", "<=", ">=", "&&", "||", "++", "--", "+=", "-=", "<", ">", "*", "/", "-", "%", "!", "&", "|", "~", "^"]
+
+
+def classify(msg):
+    """The syntactic feature that keeps an expression outside the modelled ES5 subset."""
+    m = msg.strip()
+    if m.startswith("/*") or m.startswith("//"):
+        return "comment"
+    for op in OPS:
+        if m.startswith(op):
+            return "operator other than + and ?: (" + op + ")"
+    if m.startswith("keyword "):
+        return "statement/keyword outside the subset (" + m[8:] + ")"
+    if m in ("('p', '{')", "block / object literal"):
+        return "object literal"
+    if m == "('p', '[')":
+        return "array literal"
+    if m.startswith("'") or m.startswith('"') or "escape" in m:
+        return "string literal with escapes / backslash in text"
+    if m[:1].isdigit() or m.startswith("."):
+        return "non-integer number literal"
+    if m == "parenthesisation":
+        return "parenthesisation"
+    if m == "non-ascii":
+        return "non-ASCII text"
+    if m.startswith("library"):
+        return "expressionLib with statements other than function declarations"
+    return "other: " + m[:20]
 
 
 class NoParse(Exception):
@@ -142,6 +173,8 @@ class P:
             self.i += 1
             return ["bool", t[1] == "true"]
         if t[0] == "id":
+            if t[1] in JS_RESERVED:
+                raise NoParse("keyword " + t[1])
             self.i += 1
             return ["id", t[1]]
         if self.isp("("):
@@ -333,7 +366,7 @@ def translate(c):
             raise NoParse("library with statements other than function declarations")
         return parts, lib, None
     except NoParse as e:
-        return None, None, str(e)[:60]
+        return None, None, classify(str(e))
     except Exception as e:  # noqa: BLE001  (scanner errors etc.)
         return None, None, type(e).__name__
 
